@@ -293,6 +293,9 @@ func TestVerif_C15(t *testing.T) {
 	k := verifkit.Start(t, "C15")
 	prop := c15Prop(k)
 	k.Regress(t, func(sub string, raw json.RawMessage) error {
+		if strings.HasPrefix(sub, "os") {
+			return nil // belongs to the OS part
+		}
 		if strings.HasPrefix(sub, "overlapping") {
 			return verifkit.Decode(raw, c15OverlapProp(k))
 		}
